@@ -103,7 +103,7 @@ CLAIMS = {
   technique="Coq interleaving lemma over independent state machines + source scan facts + concurrent differential runs"),
  "C10": dict(
   category="proof",
-  text="Coq theorem C10_furthest: without memoized/left-recursive rules a reported error is the furthest-latest entry of the specification's log of failed attempts (lookahead scoping as the property states); C10_record_error pins the <= of record_error. Oracle on the implementation: position inside the input on a char boundary, never the sentinel, equal to the furthest-latest attempt of the extracted S. The 'really failed during that parse' clause for memoized/left-recursive grammars is checked by the oracle only (no theorem yet): partial.",
+  text="Coq theorem C10_furthest: without memoized/left-recursive rules a reported error is the furthest-latest entry of the specification's log of failed attempts (lookahead scoping as the property states); C10_record_error pins the <= of record_error. Oracle on the implementation: position inside the input on a char boundary, never the sentinel, equal to the furthest-latest attempt of the extracted S. C10_real (instance of the generic invariant theorem over the ghost log of failed attempts): for EVERY grammar, memoized and left-recursive rules included, arbitrary stateful hooks and every setting of the decision points, the error a failed parse reports is an entry of the log of match attempts that failed during that very parse, or the left-recursion sentinel, or the farthest-error default; with C04_errpos its offset is a character boundary inside the input. The no-sentinel clause is decided by the fact leftrec_closed plus the oracle.",
   note=TB,
   technique="Coq simulation proof (farthest error = fold of the failure log) + differential correspondence"),
  "C11": dict(
